@@ -14,7 +14,7 @@
      raise v (fail with an exception of class ExcClass(v): an Exception subclass, a user class deriving from
      BaseException only, KeyboardInterrupt, SystemExit, GeneratorExit - the failure rule does not depend on it)
      alw v (raise AlwaysYield) | next|stop|pause|resume|reset|play t | wait c | signal|unhang c
-     settest c v | fget f | fset f v | embed t (yield from t.__embed__(): yield every value of t until
+     settest c v (value or callable test, see TestRes) | fget f | fset f v | embed t (yield from t.__embed__(): yield every value of t until
      it raises StopStream, passing the received invals on)
      try ... except ... endx (catch-all handler: except BaseException) | try ... finally ... endf (nestable;
      any instruction, yields included, may stand in the protected part and in the handlers)
@@ -59,7 +59,16 @@ RS(state, pc, term) == [state |-> state, pc |-> pc, term |-> term, mid |-> FALSE
 Cur(s) == s.stack[Len(s.stack)]
 Now(s) == s.secs[Cur(s)]
 IsFlow(s, c) == c \in DOMAIN s.flow
-TestOf(s, c) == IF IsFlow(s, c) THEN s.flow[c] # Unbound ELSE s.cond[c].test
+\* Condition.test is a value or a callable evaluated at every wait() / signal().  settest c v installs:
+\*   0 False | 1 True | 2 a callable returning False | 3 a callable returning True | 4 a callable that raises TypeError
+\*   inside (len(None)) | 5 a callable that raises ValueError | 6 a callable of the wrong arity (TypeError when called)
+\* TestRes = "T" / "F" / the class of the exception the evaluation raises (it propagates, nothing else happens)
+TestRes(s, c) ==
+    IF IsFlow(s, c) THEN (IF s.flow[c] # Unbound THEN "T" ELSE "F")
+    ELSE LET v == s.cond[c].test IN
+         CASE v \in {1, 3} -> "T" [] v \in {4, 6} -> "TypeError" [] v = 5 -> "ValueError" [] OTHER -> "F"
+TestOf(s, c) == TestRes(s, c) = "T"
+TestRaises(s, c) == TestRes(s, c) \notin {"T", "F"}
 
 \* fm: the entry was written by clean-up code of an abandoned generator (it does not run inside next())
 AddLogM(s, r, pc, ev, res, fm) ==
@@ -181,6 +190,8 @@ RunBody(s, r, i, pd, iv, res, mode) ==
              \* Condition.wait(): park the thread player (outermost routine of the chain) unless the test holds
              IF Len(s.stack) < 2           \* only clean-up code can get here: wait() outside a routine raises
              THEN Throw(s, r, i, pd, Out("raise", "Exception", NoneV), iv, mode)
+             ELSE IF TestRaises(s, ins.t)      \* evaluating the test failed: wait() raises it into the body, nobody is parked
+             THEN Throw(s, r, i, pd, Out("raise", TestRes(s, ins.t), NoneV), iv, mode)
              ELSE LET s1 == IF TestOf(s, ins.t) THEN s ELSE [s EXCEPT !.cond[ins.t].w = Append(@, s.stack[2])] IN
                   IF fm THEN Ignored(s1)
                   ELSE Suspend(s1, r, i + 1, pd, FALSE, IF TestOf(s, ins.t) THEN V("num", 0) ELSE V("str", 0 - 1))
@@ -232,9 +243,11 @@ DoPlay(s, r) ==
     THEN R2(Schedule([s EXCEPT !.rs[r].state = "Suspended"], Now(s), r), Ret(NoneV))
     ELSE R2(s, Ret(NoneV))
 WakeAll(s, c) == [ScheduleAll(s, Now(s), s.cond[c].w) EXCEPT !.cond[c].w = <<>>]
-DoSignal(s, c) == R2(IF TestOf(s, c) THEN WakeAll(s, c) ELSE s, Ret(NoneV))
+DoSignal(s, c) ==
+    IF TestRaises(s, c) THEN R2(s, Exc(TestRes(s, c)))        \* the caller of signal() gets the error, nothing changes
+    ELSE R2(IF TestOf(s, c) THEN WakeAll(s, c) ELSE s, Ret(NoneV))
 DoUnhang(s, c) == R2(WakeAll(s, c), Ret(NoneV))
-DoSetTest(s, c, v) == R2([s EXCEPT !.cond[c].test = (v # 0)], Ret(NoneV))
+DoSetTest(s, c, v) == R2([s EXCEPT !.cond[c].test = v], Ret(NoneV))
 DoFSet(s, f, v) ==
     IF s.flow[f] # Unbound THEN R2(s, Exc("Exception"))            \* cannot rebind a FlowVar
     ELSE R2(WakeAll([s EXCEPT !.flow[f] = V("str", v)], f), Ret(NoneV))
@@ -255,6 +268,7 @@ Api(s, op, t, v, inval) ==
                  pre |-> IF IsRoutineOp(op) THEN s.rs[t].state ELSE "",
                  post |-> IF IsRoutineOp(op) THEN a.st.rs[t].state ELSE "",
                  term |-> IF IsRoutineOp(op) THEN s.rs[t].term ELSE NoTerm,
+                 terr |-> IF op = "signal" /\ TestRaises(s, t) THEN TestRes(s, t) ELSE "",
                  test |-> IF IsRoutineOp(op) THEN FALSE ELSE (op = "unhang" \/ (op = "fset" /\ a.res.k = "ret") \/ (op = "signal" /\ TestOf(s, t))),
                  prew |-> IF IsRoutineOp(op) THEN <<>> ELSE s.cond[t].w,
                  postw |-> IF IsRoutineOp(op) THEN <<>> ELSE a.st.cond[t].w,
@@ -279,7 +293,7 @@ InitSt(p, conds, flows) ==
     [rs |-> [r \in DOMAIN p |-> RS("Init", 1, NoTerm)],
      stack |-> <<"main">>,
      secs |-> [x \in DOMAIN p \cup {"main"} |-> 0],
-     cond |-> [c \in conds \cup flows |-> [test |-> FALSE, w |-> <<>>]],
+     cond |-> [c \in conds \cup flows |-> [test |-> 0, w |-> <<>>]],
      flow |-> [f \in flows |-> Unbound],
      q |-> <<>>, log |-> <<>>, calls |-> <<>>, ab |-> 0, over |-> FALSE]
 
@@ -334,7 +348,7 @@ WakeOnSignal(s) ==
         (c.op \in {"signal", "unhang", "fset"}) =>
             IF c.test THEN /\ c.postw = <<>>
                            /\ \A j \in 1..Len(c.prew) : InQ(c.postq, c.prew[j], c.now)
-            ELSE c.postw = c.prew /\ c.postq = c.preq
+            ELSE c.postw = c.prew /\ c.postq = c.preq /\ (c.terr # "" => c.res = Exc(c.terr))
 \* "exactly once": in keyed mode a thread has at most one queue entry
 AtMostOnceQueued(s) ==
     QMode = "keyed" => \A i, j \in 1..Len(s.q) : i # j => s.q[i].r # s.q[j].r
@@ -355,7 +369,7 @@ VocabNest == {I("yn", "", 8, 0), I("embed", "r2", 0, 0), I("next", "r2", 0, 0), 
               I("stop", "r1", 0, 1), I("stop", "r2", 0, 0), I("reset", "r2", 0, 0), I("pause", "r2", 0, 0),
               I("play", "r2", 0, 0)}
 VocabCond == {I("yn", "", 8, 0), I("wait", "c1", 0, 0), I("fget", "f1", 0, 0), I("signal", "c1", 0, 0),
-              I("settest", "c1", 1, 0), I("fset", "f1", 5, 1), I("next", "r2", 0, 1)}
+              I("settest", "c1", 1, 0), I("settest", "c1", 5, 0), I("fset", "f1", 5, 1), I("next", "r2", 0, 1)}
 R2Bodies == {P(0, 1, <<I("yn", "", 4, 0), I("raise", "", 0, 0)>>),
              P(0, 0, <<I("next", "r1", 0, 0), I("yv", "", 7, 0)>>),
              P(1, 0, <<I("stop", "r1", 0, 1)>>),
@@ -407,7 +421,7 @@ Progs ==
 Conds == {"c1"}
 Flows == {"f1"}
 
-NWitness == 28
+NWitness == 30
 WitnessInit == \A i \in 1..NWitness : TLCSet(i, FALSE)      \* registers of the vacuity guard (see the end)
 Init == /\ prog \in Progs
         /\ WitnessInit
@@ -426,7 +440,7 @@ ExtStop == \E r \in DOMAIN prog : Do(E("stop", r, 0))
 ExtReset == \E r \in DOMAIN prog : Do(E("reset", r, 0))
 ExtSignal == \E c \in Conds : Do(E("signal", c, 0))
 ExtUnhang == \E c \in Conds : Do(E("unhang", c, 0))
-ExtSetTest == \E c \in Conds, v \in {0, 1} : Do(E("settest", c, v))
+ExtSetTest == \E c \in Conds, v \in {0, 1, 4} : Do(E("settest", c, v))
 ExtFSet == \E f \in Flows : Do(E("fset", f, 6))
 ExtTick == Do(E("tick", "", 0))
 Next == ExtNext \/ ExtPlay \/ ExtPause \/ ExtResume \/ ExtStop \/ ExtReset \/ ExtSignal \/ ExtUnhang
@@ -480,7 +494,10 @@ Witnesses == <<
     AnyCall(LAMBDA c : c.op = "reset" /\ c.pre \in {"Suspended", "Paused"}),
     \E i \in 1..Len(st.log) : ~st.log[i].fm /\ st.log[i].ev = "caught" /\ st.log[i].x = "Boom",
     \* a body failed with a BaseException that is not an Exception
-    AnyCall(LAMBDA c : c.op = "next" /\ c.res.k = "exc" /\ NotAnException(c.res.x) /\ c.post = "Done") >>
+    AnyCall(LAMBDA c : c.op = "next" /\ c.res.k = "exc" /\ NotAnException(c.res.x) /\ c.post = "Done"),
+    \* a callable test raised at signal() with a routine parked; a callable test raised at wait()
+    AnyCall(LAMBDA c : c.op = "signal" /\ c.terr # "" /\ c.prew # <<>>),
+    \E i \in 1..Len(st.calls) : st.calls[i].op = "next" /\ st.calls[i].res = Exc("TypeError") /\ st.calls[i].post = "Done" >>
 WitnessInv == Len(Witnesses) = NWitness /\ \A i \in 1..NWitness : Witnesses[i] => TLCSet(i, TRUE)
 WitnessPost == \A i \in 1..NWitness : PrintT(<<"WITNESS", i, TLCGet(i)>>)
 =============================================================================
